@@ -265,27 +265,44 @@ class RecGen(np.random.Generator):
         self.choices = []
         self.other = []
 
-    def choice(self, a, size=None, replace=True, p=None, axis=0, shuffle=True):
-        out = super().choice(a, size=size, replace=replace, p=p, axis=axis, shuffle=shuffle)
-        if self.adv and replace and isinstance(out, np.ndarray) and out.size:
-            out = np.full_like(out, out.flat[0])
-        self.choices.append({"a": a if isinstance(a, (int, np.integer)) else None, "size": size, "replace": bool(replace),
-                             "out": [int(x) for x in np.asarray(out).ravel()] if np.asarray(out).dtype.kind in "iu" else None})
+    # signature-agnostic (item 21): every argument is forwarded unchanged to numpy; what the harness needs is bound by name afterwards
+    def choice(self, *args, **kwargs):
+        out = super().choice(*args, **kwargs)
+        try:
+            b = dict(zip(("a", "size", "replace", "p", "axis", "shuffle"), args))
+            b.update(kwargs)
+            a, size, replace = b.get("a"), b.get("size"), b.get("replace", True)
+            if self.adv and replace and isinstance(out, np.ndarray) and out.size:
+                out = np.full_like(out, out.flat[0])
+            self.choices.append({"a": a if isinstance(a, (int, np.integer)) else None, "size": size, "replace": bool(replace),
+                                 "out": [int(x) for x in np.asarray(out).ravel()] if np.asarray(out).dtype.kind in "iu" else None})
+        except Exception as e:  # noqa
+            self.other.append("choice(unrecorded: %s)" % type(e).__name__)
         return out
 
-    def integers(self, low, high=None, size=None, dtype=np.int64, endpoint=False):
-        out = super().integers(low, high, size=size, dtype=dtype, endpoint=endpoint)
+    def integers(self, *args, **kwargs):
+        out = super().integers(*args, **kwargs)
         self.other.append("integers")
         if self.adv and isinstance(out, np.ndarray) and out.size:
             out = np.full_like(out, out.flat[0])
         return out
 
-    def random(self, size=None, dtype=np.float64, out=None):
-        o = super().random(size=size, dtype=dtype, out=out)
+    def random(self, *args, **kwargs):
+        o = super().random(*args, **kwargs)
         self.other.append("random")
         if self.adv and isinstance(o, np.ndarray) and o.size:
             o[...] = o.flat[0]
         return o
+
+
+def own_fault(res, e, case, where):
+    """item 21: an exception that is the harness's own doing (a wrapper / stub could not cope with how it was called) is a broken tie"""
+    from harness.dbal_cli import harness_fault
+    if harness_fault(e):
+        res.count("wrapper.unexpected-call")
+        res.disagree("C15:wrapper:%s" % where, case, "%s: %s" % (type(e).__name__, str(e)[:200]), "the harness's recorder accepts the call")
+        return True
+    return False
 
 
 def callsite_case(res, gd, n_thetas, max_combos, seed, adversarial=False, tie=None):
@@ -304,16 +321,23 @@ def callsite_case(res, gd, n_thetas, max_combos, seed, adversarial=False, tie=No
     calls = []
     orig = gd.get_combination_at_sorted_index
 
-    def rec(index, n, k):
-        out = orig(index, n, k)
-        calls.append((int(index), int(n), int(k), tuple(int(x) for x in out)))
+    def rec(*args, **kwargs):
+        # signature-agnostic (item 21): forward unchanged; (index, n, k) are found by binding against the ORIGINAL signature
+        out = orig(*args, **kwargs)
+        try:
+            import inspect
+            ba = inspect.signature(orig).bind(*args, **kwargs).arguments
+            calls.append((int(ba["index"]), int(ba["n"]), int(ba["k"]), tuple(int(x) for x in out)))
+        except Exception:  # noqa
+            res.count("wrapper.unexpected-call")
         return out
 
     gd.get_combination_at_sorted_index = rec
     try:
         scores = gd.dbal_fast_gauss_scoring_vectorized(preds, var, dm, rng, max_combos=max_combos)
     except Exception as e:  # noqa
-        res.fail("scoring raises", case, "%s: %s" % (type(e).__name__, e), "scores", signature="C15:callsite-raises")
+        if not own_fault(res, e, case, "callsite"):
+            res.fail("scoring raises", case, "%s: %s" % (type(e).__name__, e), "scores", signature="C15:callsite-raises")
         return
     finally:
         gd.get_combination_at_sorted_index = orig
@@ -423,26 +447,30 @@ class _StubTheta:
     def __init__(self, i):
         self.i = i
 
-    def predict_conditional_mean(self, screen):
-        return screen.means[self.i]
+    # stand-ins for the repo's interfaces: whatever way (position / keyword name) the implementation passes the argument (item 21)
+    def predict_conditional_mean(self, *args, **kwargs):
+        from harness.dbal_cli import first_arg
+        return first_arg(args, kwargs).means[self.i]
 
-    def predict_conditional_variance(self, screen):
-        return screen.variances[self.i]
+    def predict_conditional_variance(self, *args, **kwargs):
+        from harness.dbal_cli import first_arg
+        return first_arg(args, kwargs).variances[self.i]
 
 
 class _StubThetas:
     def __init__(self, n):
         self.n_thetas = n
 
-    def get_theta(self, i):
-        return _StubTheta(int(i))
+    def get_theta(self, *args, **kwargs):
+        from harness.dbal_cli import first_arg
+        return _StubTheta(int(first_arg(args, kwargs)))
 
 
 class _StubDM:
     def __init__(self, d):
         self.d = d
 
-    def to_dense(self):
+    def to_dense(self, *args, **kwargs):
         return self.d
 
 
@@ -484,15 +512,19 @@ def scorer_reuse_case(res, gd, ns, max_triples, max_chunk, seed):
 
     def wrapped(*a, **k):
         # wrap the three arrays in recorders and pass EVERYTHING else through untouched (also arguments this harness does not know)
-        logs = ([], [], [])
-        names = ("predictions", "variances", "distance_matrix")
-        a = list(a)
-        for pos, (name, lg) in enumerate(zip(names, logs)):
-            if name in k:
-                k[name] = RecordingArray(np.asarray(k[name]), lg)
-            elif pos < len(a):
-                a[pos] = RecordingArray(np.asarray(a[pos]), lg)
-        out = kernel(*a, **k)
+        try:
+            logs = ([], [], [])
+            names = ("predictions", "variances", "distance_matrix")
+            a2, k2 = list(a), dict(k)
+            for pos, (name, lg) in enumerate(zip(names, logs)):
+                if name in k2:
+                    k2[name] = RecordingArray(np.asarray(k2[name]), lg)
+                elif pos < len(a2):
+                    a2[pos] = RecordingArray(np.asarray(a2[pos]), lg)
+        except Exception:  # noqa
+            res.count("wrapper.unexpected-call")
+            return kernel(*a, **k)
+        out = kernel(*a2, **k2)
         per_call.append(logs)
         return out
 
@@ -509,6 +541,8 @@ def scorer_reuse_case(res, gd, ns, max_triples, max_chunk, seed):
             try:
                 out = scorer.score(plates=plates, distance_matrix=_StubDM(d), samples=_StubThetas(n), rng=rng, progress_bar=False)
             except Exception as e:  # noqa
+                if own_fault(res, e, case, "reuse"):
+                    return
                 res.fail("a scorer object used before with %s posterior samples raises when scoring with %d" % (list(ns[:rnd]), n), case,
                          {"round": rnd, "error": "%s: %s" % (type(e).__name__, str(e)[:200])}, "scores", signature="C15:reuse-raises")
                 return
@@ -560,14 +594,17 @@ class observed_kernel:
         per_call = self.per_call
 
         def wrapped(*a, **k):
-            logs = ([], [], [])
-            a = list(a)
-            for pos, (name, lg) in enumerate(zip(("predictions", "variances", "distance_matrix"), logs)):
-                if name in k:
-                    k[name] = RecordingArray(np.asarray(k[name]), lg)
-                elif pos < len(a):
-                    a[pos] = RecordingArray(np.asarray(a[pos]), lg)
-            out = kernel(*a, **k)
+            try:
+                logs = ([], [], [])
+                a2, k2 = list(a), dict(k)
+                for pos, (name, lg) in enumerate(zip(("predictions", "variances", "distance_matrix"), logs)):
+                    if name in k2:
+                        k2[name] = RecordingArray(np.asarray(k2[name]), lg)
+                    elif pos < len(a2):
+                        a2[pos] = RecordingArray(np.asarray(a2[pos]), lg)
+            except Exception:  # noqa
+                return kernel(*a, **k)
+            out = kernel(*a2, **k2)
             per_call.append(logs)
             return out
 
@@ -699,6 +736,8 @@ def classes_case(res, gd, cls, params, seed):
                             return
                     res.count("class.%s" % cls)
     except Exception as e:  # noqa
+        if own_fault(res, e, case, cls):
+            return
         res.fail("scoring raises on valid input [%s]" % cls, case, "%s: %s" % (type(e).__name__, str(e)[:200]), "scores", signature="C15:%s-raises" % cls)
         return
     res.evaluations += 1
@@ -716,8 +755,15 @@ def cli_case(res, case):
     rec = dc.run_cli(case["subseed"], n, budget, mc, case["seed"], verbose=case.get("verbose", False), split_files=case.get("split", True),
                      n_chunks=case.get("n_chunks", 1), chunk_index=case.get("chunk_index", 0), many_rows=n > 64)
     res.evaluations += 1
+    for f_ in rec.get("faults", []):
+        res.count("wrapper.unexpected-call")
+        res.disagree("C15:wrapper:entry-point", case, f_, "the harness's recorder accepts the call")
     if "error" in rec:
-        res.fail("calculate_scores.main() raises on valid input", case, rec["error"], "a scores file", signature="C15:entry-point-raises")
+        if rec.get("error_in_harness"):
+            res.count("wrapper.unexpected-call")
+            res.disagree("C15:wrapper:entry-point", case, rec["error"], "the harness's recorder accepts the call")
+        else:
+            res.fail("calculate_scores.main() raises on valid input", case, rec["error"], "a scores file", signature="C15:entry-point-raises")
         return None
     used = []
     for c_ in rec["score_calls"]:
@@ -752,7 +798,8 @@ def blackbox_case(res, gd, n_thetas, max_combos, seed):
         sc = gd.dbal_fast_gauss_scoring_vectorized(np.zeros((1, n_thetas, E)), np.ones((1, n_thetas, E)), d,
                                                    np.random.default_rng(seed), max_combos=max_combos)
     except Exception as e:  # noqa
-        res.fail("scoring raises", case, "%s: %s" % (type(e).__name__, e), "scores", signature="C15:callsite-raises")
+        if not own_fault(res, e, case, "blackbox"):
+            res.fail("scoring raises", case, "%s: %s" % (type(e).__name__, e), "scores", signature="C15:callsite-raises")
         return
     res.evaluations += 1
     K = min(math.comb(n_thetas, 3), max_combos)
